@@ -462,8 +462,28 @@ func (s *seedInfo) mutate(rng *rand.Rand) ([]patch, int, string) {
 						const chars = "(),'\"[]`;x0 \x00\xff"
 						b[rng.Intn(n)] = chars[rng.Intn(len(chars))]
 					}
-				default: // valid-looking but different definition
-					def := []byte("CREATE TABLE zz(a INTEGER PRIMARY KEY, b, c, d, e, f, g, UNIQUE(b,c), PRIMARY KEY(d)) WITHOUT ROWID")
+				default: // definitions the parser accepts but which do not fit the file (or each other)
+					defs := []string{
+						"CREATE TABLE zz(a INTEGER PRIMARY KEY, b, c, d, e, f, g, UNIQUE(b,c), PRIMARY KEY(d)) WITHOUT ROWID",
+						"CREATE TABLE zz(a, PRIMARY KEY(b))",
+						"CREATE TABLE zz(a, PRIMARY KEY(b)) WITHOUT ROWID",
+						"CREATE TABLE zz(a, b, PRIMARY KEY(a, nosuch, b)) WITHOUT ROWID",
+						"CREATE TABLE zz(a, a, b PRIMARY KEY) WITHOUT ROWID",
+						"CREATE TABLE zz(a, PRIMARY KEY(a+1))",
+						"CREATE TABLE zz(a, PRIMARY KEY(a+1)) WITHOUT ROWID",
+						"CREATE TABLE zz(a, UNIQUE(q), UNIQUE(a, q))",
+						"CREATE TABLE zz(a COLLATE mycoll PRIMARY KEY, b) WITHOUT ROWID",
+						"CREATE TABLE zz(a TEXT COLLATE mycoll UNIQUE, b, PRIMARY KEY(b COLLATE other))",
+						"CREATE TABLE zz(a INTEGER, PRIMARY KEY(a, a, a)) WITHOUT ROWID",
+						"CREATE TABLE zz()",
+						"CREATE TABLE zz(a, b, c, d, e, f, g, h, i, j, k, l, m, n, o, p PRIMARY KEY) WITHOUT ROWID",
+						"CREATE INDEX zi ON zz(nosuch)",
+						"CREATE INDEX zi ON zz(a COLLATE mycoll, nosuch DESC)",
+						"CREATE INDEX zi ON zz(a+1, lower(b))",
+						"CREATE UNIQUE INDEX zi ON zz(a) WHERE",
+						"SELECT * FROM zz",
+					}
+					def := []byte(defs[rng.Intn(len(defs))])
 					b = make([]byte, n)
 					for i := range b {
 						b[i] = ' '
